@@ -674,9 +674,6 @@ fn to_ref(e: &Expr, df: &DFSchema) -> Option<String> {
 }
 
 // ------------------------------------------------------------------ defect-class triggers (known-finding keys)
-fn has_null_lit(l: &[Expr]) -> bool {
-    l.iter().any(|x| matches!(x, Expr::Literal(v, _) if v.is_null()))
-}
 fn walk(e: &Expr, f: &mut dyn FnMut(&Expr)) {
     use datafusion::common::tree_node::{TreeNode, TreeNodeRecursion};
     let _ = e.apply(|n| {
@@ -701,11 +698,12 @@ fn inlist_probe(n: &Expr) -> Option<Expr> {
 }
 /// stable key of the known defect class the ORIGINAL expression can trigger and the failing row is consistent with
 /// ("" = none).  v0 / v1 = value of the original / simplified expression on the failing row (None = error).
-fn defect_key(e: &Expr, df: &DFSchema, guar: &[(usize, Guar)], v0: &V, v1: Option<&V>) -> String {
+fn defect_key(e: &Expr, df: &DFSchema, guar: &[(usize, Guar)], v0: &V, v1: Option<&V>, err1: &str) -> String {
     let mut probes: Vec<Expr> = vec![];
     let mut inlist_pair = false;
     let mut empty_inlist = false;
-    let mut neg_bit = false;
+    let mut has_neg = false;
+    let mut has_bit = false;
     let mut trycast_narrow = false;
     walk(e, &mut |n| {
         if let Some(p) = inlist_probe(n) {
@@ -716,18 +714,8 @@ fn defect_key(e: &Expr, df: &DFSchema, guar: &[(usize, Guar)], v0: &V, v1: Optio
         }
         match n {
             Expr::InList(il) if il.list.is_empty() => empty_inlist = true,
-            Expr::BinaryExpr(BinaryExpr { left, op, right }) if is_bitop(op) => {
-                if matches!(left.as_ref(), Expr::Negative(_)) || matches!(right.as_ref(), Expr::Negative(_)) {
-                    neg_bit = true;
-                }
-            }
-            Expr::Negative(inner) => {
-                if let Expr::BinaryExpr(BinaryExpr { op, .. }) = inner.as_ref() {
-                    if matches!(op, Operator::BitwiseAnd | Operator::BitwiseOr) {
-                        neg_bit = true;
-                    }
-                }
-            }
+            Expr::BinaryExpr(BinaryExpr { op, .. }) if is_bitop(op) => has_bit = true,
+            Expr::Negative(_) => has_neg = true,
             Expr::TryCast(TryCast { expr, field }) => {
                 if let (Some(from), Some(to)) = (expr.get_type(df).ok().and_then(|t| int_dt_range(&t)), int_dt_range(field.data_type())) {
                     if !(to.0 <= from.0 && from.1 <= to.1) {
@@ -738,11 +726,13 @@ fn defect_key(e: &Expr, df: &DFSchema, guar: &[(usize, Guar)], v0: &V, v1: Optio
             _ => {}
         }
     });
+    // unary minus anywhere together with a bitwise operator anywhere (other rules may bring them together)
+    let neg_bit = has_neg && has_bit;
     let orig_null = *v0 == V::Null;
     let simp_null = v1 == Some(&V::Null);
     let mut ks = vec![];
-    // the three-valued-logic defects only ever turn a NULL result into TRUE / FALSE
-    if inlist_pair && orig_null {
+    // the three-valued-logic defects: the mismatch always involves a NULL on one side
+    if inlist_pair && (orig_null || simp_null) {
         ks.push("inlist-merge-ignores-null");
     }
     if trycast_narrow && orig_null {
@@ -757,6 +747,10 @@ fn defect_key(e: &Expr, df: &DFSchema, guar: &[(usize, Guar)], v0: &V, v1: Optio
     // a MaybeNull guarantee with a point interval is treated as the constant
     if orig_null && guar.iter().any(|(_, g)| matches!(g, Guar::MaybeNull(lo, hi) if lo == hi)) {
         ks.push("guarantee-maybenull-point-as-constant");
+    }
+    // -(MIN): the array kernel wraps, a folded / guaranteed literal operand makes the scalar kernel fail
+    if has_neg && v1.is_none() && err1.contains("Arithmetic overflow") {
+        ks.push("negate-min-scalar-overflows");
     }
     ks.join("+")
 }
@@ -985,8 +979,12 @@ fn run_case(cx: &Ctx, c: &Case1, rng: &mut Rng) -> String {
     for (ci, g) in &c.guar {
         // guarantee on a column the expression does not use: the default must satisfy it too
         if !used.contains(ci) {
-            let d: Vec<V> = base_domain(*ci).into_iter().filter(|v| guar_ok(g, v)).collect();
-            doms[*ci] = if d.is_empty() { vec![V::Null] } else { vec![d[0].clone()] };
+            let mut d = base_domain(*ci);
+            if let Guar::NotNull(Some((lo, _))) | Guar::MaybeNull(lo, _) = g {
+                d.insert(0, V::I(*lo));
+            }
+            d.retain(|v| guar_ok(g, v));
+            doms[*ci] = if d.is_empty() { vec![default_val(*ci)] } else { vec![d[0].clone()] };
         }
     }
     let total: usize = doms.iter().map(|d| d.len()).product();
@@ -1104,7 +1102,8 @@ fn run_case(cx: &Ctx, c: &Case1, rng: &mut Rng) -> String {
     }
     if let Some((i, why)) = bad {
         let v0 = r0[i].clone().unwrap_or(V::Null);
-        let dkey = defect_key(e, cx.df.as_ref(), &c.guar, &v0, r1[i].as_ref().ok());
+        let err1 = r1[i].as_ref().err().cloned().unwrap_or_default();
+        let dkey = defect_key(e, cx.df.as_ref(), &c.guar, &v0, r1[i].as_ref().ok(), &err1);
         let key = if dkey.is_empty() { format!("unclassified:{}", c.stream) } else { dkey };
         o.push_str(&format!(",\"ok\":false,\"row\":[{}],\"why\":{},\"key\":{}}}", rows[i].iter().map(|v| v.json()).collect::<Vec<_>>().join(","), json_str(&why), json_str(&key)));
     } else if type_bad {
@@ -1134,6 +1133,8 @@ fn witnesses() -> Vec<(&'static str, Expr, Vec<(usize, Guar)>)> {
         ("witness:unwrap-narrowing-try_cast", bin(try_cast(col("a64"), DataType::Int32), NotEq, i32l(1)), vec![]),
         // NULL IN () : FALSE when the probe is an expression, NULL once the probe has been folded to a NULL literal
         ("witness:empty-inlist-null-probe", in_list(nullif(null_lit(Ty::Str), str_lit("%")), vec![], false), vec![]),
+        // guarantee b32 = i32::MIN: -b32 wraps to MIN on the column, the folded -(MIN literal) fails with an overflow error
+        ("witness:negate-min-scalar-overflows", Expr::Negative(bx(col("b32"))), vec![(3, Guar::NotNull(Some((i32::MIN as i128, i32::MIN as i128))))]),
         // guarantee a8 IN {NULL, 1}: the column is replaced by the literal 1, also on the rows where it is NULL
         ("witness:guarantee-maybenull-point-as-constant", Expr::Negative(bx(col("a8"))), vec![(0, Guar::MaybeNull(1, 1))]),
     ]
